@@ -310,4 +310,34 @@ def validOpt : Option Node → Bool
   | some e => valid e
 end
 
+/-- The node itself (not looking below it) is unacceptable: unregistered name, wrong JSON shape,
+or a scope its modifier does not support / that is not a scope name. -/
+def badHere : Node → Bool
+  | .unknown => true
+  | .malformed => true
+  | .leaf _ caps _ _ scope => !scopeOk caps scope
+  | .fifo scope _ _ => !scopeOk Caps.both scope
+  | .prio scope _ => !scopeOk Caps.both scope
+  | .filter _ scope _ _ => !scopeOk Caps.both scope
+
+mutual
+/-- `p` holds of the node or of some node anywhere below it. -/
+def anyNode (p : Node → Bool) : Node → Bool
+  | .leaf l caps fq fs scope => p (.leaf l caps fq fs scope)
+  | .unknown => p .unknown
+  | .malformed => p .malformed
+  | .fifo scope agg cs => p (.fifo scope agg cs) || anyList p cs
+  | .prio scope cs => p (.prio scope cs) || anyPList p cs
+  | .filter c scope t e => p (.filter c scope t e) || anyNode p t || anyOpt p e
+def anyList (p : Node → Bool) : List Node → Bool
+  | [] => false
+  | c :: cs => anyNode p c || anyList p cs
+def anyPList (p : Node → Bool) : List (Int × Node) → Bool
+  | [] => false
+  | (_, c) :: cs => anyNode p c || anyPList p cs
+def anyOpt (p : Node → Bool) : Option Node → Bool
+  | none => false
+  | some e => anyNode p e
+end
+
 end Martian.Config
